@@ -11,7 +11,9 @@ package cluster
 //                        by probes: at quiescence every handle must be lockable again.
 
 import (
+	"context"
 	"fmt"
+	"math/rand"
 	"os"
 	"sync"
 	"sync/atomic"
@@ -19,6 +21,7 @@ import (
 	"time"
 
 	"github.com/phayes/freeport"
+	clientv3 "go.etcd.io/etcd/client/v3"
 
 	"github.com/megaease/easegress/pkg/env"
 	"github.com/megaease/easegress/pkg/logger"
@@ -90,9 +93,79 @@ func c18New(opt *option.Options) (*cluster, error) {
 	}
 }
 
+// c18JitterKV delays every KV request of a member's etcd client by a random time while enabled (a slow
+// network): it widens the windows between the steps of Lock / Unlock, it never changes their outcome.
+type c18JitterKV struct {
+	clientv3.KV
+	maxMicros int64 // 0 = off
+	mu        sync.Mutex
+	rng       *rand.Rand
+}
+
+func (k *c18JitterKV) delay() {
+	m := atomic.LoadInt64(&k.maxMicros)
+	if m <= 0 {
+		return
+	}
+	k.mu.Lock()
+	d := k.rng.Int63n(m)
+	k.mu.Unlock()
+	time.Sleep(time.Duration(d) * time.Microsecond)
+}
+
+func (k *c18JitterKV) Delete(ctx context.Context, key string, opts ...clientv3.OpOption) (*clientv3.DeleteResponse, error) {
+	k.delay()
+	return k.KV.Delete(ctx, key, opts...)
+}
+
+func (k *c18JitterKV) Get(ctx context.Context, key string, opts ...clientv3.OpOption) (*clientv3.GetResponse, error) {
+	k.delay()
+	return k.KV.Get(ctx, key, opts...)
+}
+
+type c18JitterTxn struct {
+	clientv3.Txn
+	k *c18JitterKV
+}
+
+func (t *c18JitterTxn) If(cs ...clientv3.Cmp) clientv3.Txn {
+	return &c18JitterTxn{t.Txn.If(cs...), t.k}
+}
+func (t *c18JitterTxn) Then(ops ...clientv3.Op) clientv3.Txn {
+	return &c18JitterTxn{t.Txn.Then(ops...), t.k}
+}
+func (t *c18JitterTxn) Else(ops ...clientv3.Op) clientv3.Txn {
+	return &c18JitterTxn{t.Txn.Else(ops...), t.k}
+}
+func (t *c18JitterTxn) Commit() (*clientv3.TxnResponse, error) {
+	t.k.delay()
+	return t.Txn.Commit()
+}
+
+func (k *c18JitterKV) Txn(ctx context.Context) clientv3.Txn { return &c18JitterTxn{k.KV.Txn(ctx), k} }
+
 type c18Env struct {
 	dir     string
 	members []*cluster // members[0] is the primary with the embedded etcd
+	jitter  []*c18JitterKV
+}
+
+// installJitter wraps the KV of the member's etcd client (before its session is created).
+func (e *c18Env) installJitter(c *cluster, seed int64) error {
+	cl, err := c.getClient()
+	if err != nil {
+		return err
+	}
+	j := &c18JitterKV{KV: cl.KV, rng: vx.Rand(seed)}
+	cl.KV = j
+	e.jitter = append(e.jitter, j)
+	return nil
+}
+
+func (e *c18Env) setJitter(maxMicros int64) {
+	for _, j := range e.jitter {
+		atomic.StoreInt64(&j.maxMicros, maxMicros)
+	}
 }
 
 func c18Setup(nSecondary int) (*c18Env, error) {
@@ -115,6 +188,10 @@ func c18Setup(nSecondary int) (*c18Env, error) {
 		return nil, err
 	}
 	e.members = append(e.members, c)
+	if err := e.installJitter(c, 181); err != nil {
+		e.Close()
+		return nil, err
+	}
 	for i := 0; i < nSecondary; i++ {
 		sub := fmt.Sprintf("%s/s%d", dir, i)
 		os.MkdirAll(sub, 0o755)
@@ -124,6 +201,10 @@ func c18Setup(nSecondary int) (*c18Env, error) {
 			return nil, err
 		}
 		e.members = append(e.members, s)
+		if err := e.installJitter(s, int64(182+i)); err != nil {
+			e.Close()
+			return nil, err
+		}
 	}
 	return e, nil
 }
@@ -156,7 +237,9 @@ type c18Worker struct {
 	p       string
 	h       *c18Handle
 	rounds  int
+	holdMin time.Duration
 	holdMax time.Duration
+	noPause bool
 	seed    int64
 }
 
@@ -183,7 +266,7 @@ func c18Scenario(w *vx.Writer, cfg vx.M, handles []*c18Handle, workers []c18Work
 			wk := workers[i]
 			rng := vx.Rand(wk.seed)
 			for r := 0; r < wk.rounds; r++ {
-				if d := rng.Intn(4); d > 0 {
+				if d := rng.Intn(4); d > 0 && !wk.noPause {
 					time.Sleep(time.Duration(rng.Intn(20*d)) * time.Millisecond)
 				}
 				atomic.StoreInt32(&state[i], c18InLock)
@@ -206,7 +289,7 @@ func c18Scenario(w *vx.Writer, cfg vx.M, handles []*c18Handle, workers []c18Work
 					continue
 				}
 				if wk.holdMax > 0 {
-					time.Sleep(time.Duration(rng.Int63n(int64(wk.holdMax))))
+					time.Sleep(wk.holdMin + time.Duration(rng.Int63n(int64(wk.holdMax))))
 				}
 				atomic.AddInt32(&inside, -1)
 				atomic.StoreInt32(&state[i], c18InUnlock)
@@ -348,8 +431,11 @@ func TestVerifC18Mutex(t *testing.T) {
 				if short && m != nm-1 {
 					hold = time.Duration(200+rng.Intn(500)) * time.Millisecond // make the short one time out
 				}
-				workers = append(workers, c18Worker{p: fmt.Sprintf("g%d", len(workers)), h: h, rounds: 2 + rng.Intn(3),
-					holdMax: hold, seed: rng.Int63()})
+				wk := c18Worker{p: fmt.Sprintf("g%d", len(workers)), h: h, rounds: 2 + rng.Intn(3), holdMax: hold, seed: rng.Int63()}
+				if short && m != nm-1 {
+					wk.holdMin, wk.rounds = 450*time.Millisecond, 2 // longer than any short time-out
+				}
+				workers = append(workers, wk)
 			}
 		}
 		ok, maxIn := c18Scenario(w, vx.M{"ev": "reset", "cfg": "A", "scen": scen, "members": nm, "handles": len(handles),
@@ -357,6 +443,35 @@ func TestVerifC18Mutex(t *testing.T) {
 		w.Emit(vx.M{"ev": "end", "scen": scen, "max_inside": int(maxIn), "completed": ok})
 		if !ok {
 			// abandoned goroutines may still log: stop here
+			w.Emit(vx.M{"ev": "summary", "scenarios": scen, "short_timeout_scenarios": shortTimeouts, "aborted": true})
+			return
+		}
+	}
+	// ---- H: hand-off storms. Several goroutines per member share the member's one handle and lock /
+	// unlock back to back with short holds, every member contends, and the members' etcd requests are
+	// delayed at random: every Unlock hands the lock to a local waiter or to another member.
+	nH := vx.EnvInt("VERIF_NH", 3)
+	for i := 0; i < nH; i++ {
+		scen++
+		name := fmt.Sprintf("/verif/lock-%d", scen)
+		nm := len(ce.members)
+		var handles []*c18Handle
+		var workers []c18Worker
+		for m := 0; m < nm; m++ {
+			h := mk(m, name, fmt.Sprintf("h%d", m), 5*time.Second)
+			handles = append(handles, h)
+			g := 2 + rng.Intn(2)
+			for k := 0; k < g; k++ {
+				workers = append(workers, c18Worker{p: fmt.Sprintf("g%d", len(workers)), h: h, rounds: 10 + rng.Intn(6), noPause: true,
+					holdMin: 4 * time.Millisecond, holdMax: 8 * time.Millisecond, seed: rng.Int63()})
+			}
+		}
+		ce.setJitter(int64(1000 + rng.Intn(5000)))
+		ok, maxIn := c18Scenario(w, vx.M{"ev": "reset", "cfg": "H", "scen": scen, "members": nm, "handles": len(handles),
+			"workers": len(workers), "short": false}, handles, workers, probeTimeout)
+		ce.setJitter(0)
+		w.Emit(vx.M{"ev": "end", "scen": scen, "max_inside": int(maxIn), "completed": ok})
+		if !ok {
 			w.Emit(vx.M{"ev": "summary", "scenarios": scen, "short_timeout_scenarios": shortTimeouts, "aborted": true})
 			return
 		}
